@@ -67,7 +67,7 @@ def describe(rep):
     rep.assume(
         'real arithmetic stands for float64 arithmetic on the data path; float constants of the tables are taken at their exact rational value',
         'problem stub: linear right-hand side with symbolic coefficients, solve_system is the exact algebraic solve (denominators assumed non-zero)',
-        'spec matrices are the ones the sweeper object holds (Q, QI, QE, Q1, Q2); their zero padding and agreement with a fresh qmat generator are concrete side conditions',
+        'spec matrices are the ones the sweeper object holds (Q, QI, QE, Q1, Q2); their zero padding and agreement with a fresh qmat generator are concrete side conditions (also after other names were requested and after the sweeper was re-initialised in place to another node set)',
         'dt > 0',
     )
     rep.out_of_scope('boris_2nd_order / Runge_Kutta_Nystrom with a magnetic field (the rotation lives in the problem class boris_solver; the harness problem has B = 0), the implicit Velocity_Verlet tableau of the Nystrom sweeper, DAE sweepers beyond the linear index-1 problem (their implicit solve is replaced by an axiomatic one), MPI sweepers',
